@@ -189,74 +189,15 @@ def d7_3(ctx):
     ctx.check(_enc_width(ctx, d) == 1, f"{DT}:StringDataType#encoding", ctx.model.cls(f"{DT}:StringDataType").attr_nodes.get("encoding"), "default string encoding is single-byte", f"default encoding {d!r} is not a 1-byte character set", encoding=d)
 
 
-@rule(P, "D7.4", "T-BITS", floor=2)
+@rule(P, "D7.4", "T-WITNESS", floor=2)
 def d7_4(ctx):
-    """Bit strings: element i is bit i of the host integer, on encode and on decode."""
-    c = ctx.model.cls(f"{DT}:BitArrayType")
-    enc, dec = c.methods.get("_encode"), c.methods.get("_decode")
-    # encode: for i, val in enumerate(value): if val: acc |= 1 << i
-    good, facts = False, {}
-    if enc is not None:
-        for loop in [n for n in walk(enc) if isinstance(n, ast.For)]:
-            if isinstance(loop.iter, ast.Call) and call_name(loop.iter) == "enumerate" and isinstance(loop.target, ast.Tuple) and len(loop.target.elts) == 2:
-                idx = atom_name(loop.target.elts[0])
-                val = atom_name(loop.target.elts[1])
-                start = ctx.folder.eval(loop.iter.args[1], c.module) if len(loop.iter.args) > 1 else 0
-                for n in walk(loop):
-                    if isinstance(n, ast.AugAssign) and isinstance(n.op, ast.BitOr) and isinstance(n.value, ast.BinOp) and isinstance(n.value.op, ast.LShift):
-                        one = ctx.folder.eval(n.value.left, c.module)
-                        sh = atom_name(n.value.right)
-                        guard = getattr(n, "_parent", None)
-                        guarded = isinstance(guard, ast.If) and atom_name(guard.test) == val
-                        facts = {"shift": src(n.value), "guard": src(guard.test) if isinstance(guard, ast.If) else None, "enumerate_start": start}
-                        good = one == 1 and sh == idx and guarded and start == 0
-    ctx.check(good, ckey(c.key + "._encode"), enc or c.node, "sets bit i for a true element i", "bit i of the host integer is not set from element i (bit order / start index)", **facts)
-    # also: result is encoded by the host type
-    good = enc is not None and any(isinstance(r, ast.Return) and isinstance(r.value, ast.Call) and attr_path(r.value.func) in ("cls.host_type._encode", "cls.host_type.encode") for r in walk(enc))
-    ctx.check(good, ckey(c.key + "._encode", "host"), enc or c.node, "integer is encoded by the host type", "bit string is not encoded through cls.host_type")
-    # decode idioms
-    good, facts = False, {}
-    if dec is not None:
-        srcs = src(dec)
-        names = {}
-        has_bin = any(isinstance(n, ast.Call) and call_name(n) == "bin" for n in walk(dec))
-        has_rev = any(isinstance(n, ast.Call) and isinstance(n.func, ast.Attribute) and n.func.attr == "reverse" for n in walk(dec)) or any(
-            isinstance(n, ast.Subscript) and isinstance(n.slice, ast.Slice) and n.slice.step is not None and ctx.folder.eval(n.slice.step, c.module) == -1 for n in walk(dec)) or any(
-            isinstance(n, ast.Call) and call_name(n) == "reversed" for n in walk(dec))
-        host_dec = any(isinstance(n, ast.Call) and attr_path(n.func) == "cls.host_type.decode" for n in walk(dec))
-        if has_bin:
-            # (a) bin(v)[2:] -> MSB-first, left-padded with False to size*8, then reversed
-            sl = [n for n in walk(dec) if isinstance(n, ast.Subscript) and isinstance(n.value, ast.Call) and call_name(n.value) == "bin" and isinstance(n.slice, ast.Slice)]
-            lo = ctx.folder.eval(sl[0].slice.lower, c.module) if sl and sl[0].slice.lower is not None else None
-            pads = [n for n in walk(dec) if isinstance(n, ast.BinOp) and isinstance(n.op, ast.Add) and isinstance(n.left, (ast.ListComp, ast.BinOp, ast.List))]
-            pad_ok = False
-            for p_ in pads:
-                # [False ...] * / for range(size*8 - len(bits)) + bits : padding on the LEFT of the MSB-first list
-                left = p_.left
-                if isinstance(left, ast.ListComp) and ctx.folder.eval(left.elt, c.module) is False:
-                    it = left.generators[0].iter
-                    if isinstance(it, ast.Call) and call_name(it) == "range" and len(it.args) == 1:
-                        L = lin(it.args[0], lambda e: ctx.folder.eval(e, c.module) if not isinstance(e, (ast.Name, ast.Attribute)) else None)
-                        if L is not None and L.terms.get("cls.size") == 8 and any(k.startswith("len(") and v == -1 for k, v in L.terms.items()) and L.const == 0:
-                            pad_ok = True
-                if isinstance(left, ast.BinOp) and isinstance(left.op, ast.Mult):
-                    pad_ok = pad_ok or (ctx.folder.eval(left.left, c.module) == [False])
-            facts = {"idiom": "bin()", "slice_from": lo, "left_padded_to_size*8": pad_ok, "reversed": has_rev}
-            good = host_dec and lo == 2 and pad_ok and has_rev
-        else:
-            # (b) (v >> i) & 1 for i in range(size*8)
-            for n in walk(dec):
-                if isinstance(n, (ast.ListComp, ast.GeneratorExp)) and len(n.generators) == 1:
-                    g = n.generators[0]
-                    if isinstance(g.iter, ast.Call) and call_name(g.iter) == "range" and len(g.iter.args) == 1:
-                        i = atom_name(g.target)
-                        L = lin(g.iter.args[0])
-                        shifts = [b for b in walk(n.elt) if isinstance(b, ast.BinOp) and isinstance(b.op, ast.RShift) and atom_name(b.right) == i]
-                        ones = [b for b in walk(n.elt) if isinstance(b, ast.BinOp) and isinstance(b.op, ast.BitAnd) and (isinstance(b.right, ast.BinOp) and isinstance(b.right.op, ast.LShift) and atom_name(b.right.right) == i)]
-                        facts = {"idiom": "shift", "range": src(g.iter.args[0])}
-                        good = host_dec and L is not None and L.terms.get("cls.size") == 8 and (bool(shifts) or bool(ones)) and not has_rev
-    ctx.check(good, ckey(c.key + "._decode"), dec or c.node, "yields element i = bit i (LSB first) for size*8 elements", "decoded bit order/length is not LSB-first over size*8 bits", **facts)
+    """Bit strings: element i is bit i of the host integer (LSB first), on encode and on decode, over exactly size x 8 bits,
+    through the unsigned host type.  Decided by folding BYTE / WORD / DWORD / LWORD on witness bit sets that include the lowest
+    and the highest bit (D6.9).  An earlier form matched the `|= 1 << i` loop and the `bin()` / `reverse()` idiom and alarmed on
+    `sum(1 << i ...)`, `[False] * n` and `[::-1]`, which compute the same list."""
+    from .C06 import d6_9
 
+    d6_9(ctx)
 
 @rule(P, "D7.5", "T-SPEC", floor=30)
 def d7_5(ctx):
